@@ -179,3 +179,81 @@ Print Assumptions C14_find_space.
 Print Assumptions C14_file_semantics.
 Print Assumptions C14_sectorLoc_translated.
 Print Assumptions C14_need_translated.
+
+(* ================= phase 3: the tie to save/region/mca.go by TRANSLATION =================
+   Gen/C14gen.v is regenerated from the Go source by tools/gotrans/c14.go on every run: the bodies of Load,
+   CreateWriter, ReadSector, WriteSector, ExistSector, PadToFullSector, findSpace and setHead as statement
+   skeletons in source order, every integer expression / condition as a named definition over Z with Go's
+   wrap-around semantics.  Proofs/C14_skel.v interprets the skeletons (exec); the theorems below say that the
+   model IS that interpretation, for every state, coordinate, payload and clock value in the stated ranges
+   (which spell out where the int / int32 / int64 / uint32 conversions of the source are exact). *)
+From GoMC Require Gen.C14gen Model.C14_syntax Proofs.C14_expected Proofs.C14_tie_expr Proofs.C14_skel Proofs.C14_skel_rw Proofs.C14_skel_c15.
+
+(* the source has the shapes the model was written against (a swapped statement, a dropped check, a changed
+   expression text, a transposed table index [x][z] breaks this) *)
+Theorem C14_source_skeletons :
+  map C14_syntax.shape C14gen.Load = C14_expected.expected_Load /\
+  map C14_syntax.shape C14gen.CreateWriter = C14_expected.expected_CreateWriter /\
+  map C14_syntax.shape C14gen.ReadSector = C14_expected.expected_ReadSector /\
+  map C14_syntax.shape C14gen.WriteSector = C14_expected.expected_WriteSector /\
+  map C14_syntax.shape C14gen.ExistSector = C14_expected.expected_ExistSector /\
+  map C14_syntax.shape C14gen.PadToFullSector = C14_expected.expected_PadToFullSector /\
+  map C14_syntax.shape C14gen.findSpace = C14_expected.expected_findSpace /\
+  map C14_syntax.shape C14gen.setHead = C14_expected.expected_setHead /\
+  C14gen.Region_fields = C14_expected.expected_Region_fields /\
+  C14gen.writeAt_text = C14_expected.expected_writeAt_text.
+Proof. exact C14_skel.all_skel_ok. Qed.
+
+(* WriteSector: new Region state, the list of physical writes IN ORDER, and the outcome *)
+Theorem C14_WriteSector_translated : forall s x z d now,
+  x < 32 -> z < 32 -> lenN d + 4 + 4095 < 2^43 -> hwm s <= sector_limit -> now < 2^63 ->
+  C14_skel_rw.interp_write s x z d now = Some (write_sector s x z d now).
+Proof. exact C14_skel_rw.interp_write_eq. Qed.
+
+(* findSpace's scan loop is find_space step for step (same fuel, same probes) *)
+Theorem C14_findSpace_translated : forall σ need k,
+  C14_skel.g_err σ = false -> hwm (C14_skel.g_st σ) + need + 2 < 2^31 - 1 ->
+  C14_skel.call1 C14_skel.CFindSpace [Z.of_N need] σ k =
+  match find_space (N.to_nat (hwm (C14_skel.g_st σ) + need + 2)) (used (C14_skel.g_st σ)) need 0 0 with
+  | Some n' => k (C14_skel.set_vars σ (C14_skel.setv (C14_skel.g_vars σ) C14_syntax.Vn (Z.of_N n')))
+  | None => C14_skel.RNoFuel
+  end.
+Proof. exact C14_skel_rw.call_findSpace. Qed.
+
+(* ReadSector: the four checks in order with their constants, seek offset, LimitReader length *)
+Theorem C14_ReadSector_translated : forall s x z,
+  x < 32 -> z < 32 -> rd32 (img s) (4096 * sec_of (getN (offs s) (idx x z))) < 2^32 ->
+  C14_skel_rw.interp_read s x z = Some (read_sector s x z).
+Proof. exact C14_skel_rw.interp_read_eq. Qed.
+
+Theorem C14_ExistSector_translated : forall s x z, x < 32 -> z < 32 -> getN (offs s) (idx x z) < 2^32 ->
+  C14_skel_rw.interp_exist s x z = Some (exist_sector s x z).
+Proof. exact C14_skel_rw.interp_exist_eq. Qed.
+
+Theorem C14_PadToFullSector_translated : forall s, fsize (img s) < 2^63 ->
+  C14_skel_rw.interp_pad s = Some (pad s).
+Proof. exact C14_skel_rw.interp_pad_eq. Qed.
+
+Theorem C14_CreateWriter_translated : C14_skel_rw.interp_create = Some create.
+Proof. exact C14_skel_rw.interp_create_eq. Qed.
+
+(* Load: the two 4096-byte reads, the occupancy loop over every header entry with its `o != 0` test and the
+   bounds of the marking loop; the file position is 0 on entry; hwm (ghost) recomputed by the model *)
+Theorem C14_Load_translated : forall f, C14_skel_rw.interp_load f = Some (load f).
+Proof. exact C14_skel_rw.interp_load_eq. Qed.
+
+(* the property theorem of one write, restated for the interpretation of the translated body *)
+Theorem C14_write_translated : forall s m x z d now s' ws r,
+  R s m -> x < 32 -> z < 32 -> lenN d + 4 + 4095 < 2^43 -> now < 2^63 ->
+  C14_skel_rw.interp_write s x z d now = Some (s', ws, r) -> write_post s m (idx x z) d s' ws r.
+Proof. exact C14_skel_c15.write_translated_correct. Qed.
+
+Print Assumptions C14_source_skeletons.
+Print Assumptions C14_WriteSector_translated.
+Print Assumptions C14_findSpace_translated.
+Print Assumptions C14_ReadSector_translated.
+Print Assumptions C14_ExistSector_translated.
+Print Assumptions C14_PadToFullSector_translated.
+Print Assumptions C14_CreateWriter_translated.
+Print Assumptions C14_Load_translated.
+Print Assumptions C14_write_translated.
